@@ -236,6 +236,11 @@ def run_case(case):
                           ((f[i] - k[i]) * bx(i, i)) ** 2 <= (f[i] * bx(i, i) - z3.ToReal(n[i]) * bx(i, i)) ** 2, abstract=abs_f)
                 oblig(ctx, 'never exceeds the non-periodic distance (image 0)',
                       z3.And(*[((f[i] - k[i]) * bx(i, i)) ** 2 <= (f[i] * bx(i, i)) ** 2 for i in range(3)]), abstract=abs_f)
+        elif ob in ('symmetry', 'lattice', 'inv-flag') and len(res.get('rints2', [])) != 3:
+            # the second evaluation did not wrap three fractional coordinates (an early exit / fast path): no staged proof,
+            # the end-to-end equality is asked directly
+            what = {'symmetry': 'd(x,y) = d(y,x)', 'lattice': 'd(x, y + n.B) = d(x, y)', 'inv-flag': 'distance_to(B^-1, inv=True) = distance_to(B)'}[ob]
+            oblig(ctx, what + ' (second evaluation without three roundings: direct query)', res['rad2'] == res['rad'], notie)
         elif ob == 'symmetry':
             f2 = [e for e, kk in res['rints2']]
             k2 = [z3.ToReal(kk) for e, kk in res['rints2']]
